@@ -3,7 +3,8 @@
     python -m hsverif.c03_child      (job JSON on stdin, result JSON on stdout)
 
 job: {"items": [{"name", "seed", "params"}], "order": [indices, repeats allowed],
-      "perturb_time": null | {"offset": s, "jump": s, "seed": n}, "detail": bool}
+      "perturb_time": null | {"offset": s, "jump": s, "seed": n}, "detail": bool,
+      "interleave_construct": bool}
 Runs the catalogue scenarios in the given order in THIS interpreter (whose
 PYTHONHASHSEED was chosen by the parent) and reports one canonical digest per
 execution: sha256 over the delivery log (time ns, event type, target name) seen
@@ -66,6 +67,25 @@ def _strip(obj):
     return _UUID.sub("<uuid>", _ADDR.sub("", repr(obj)))
 
 
+def _construct_bystander():
+    """Another, unrelated Simulation is *constructed* (events created and scheduled, never run) between
+    building a model and running it.  Draws from no RNG."""
+    from happysimulator.core.entity import Entity
+    from happysimulator.core.event import Event
+    from happysimulator.core.simulation import Simulation
+    from happysimulator.core.temporal import Instant
+
+    class Bystander(Entity):
+        def handle_event(self, event):
+            return None
+
+    b = Bystander("bystander")
+    other = Simulation(entities=[b], end_time=Instant.from_seconds(1.0))
+    for i in range(7):
+        other.schedule(Event(time=Instant.from_seconds(0.1 * i), event_type="Noise", target=b))
+    return other
+
+
 def main():
     job = json.load(sys.stdin)
     os.environ["HSVERIF_C03_SLOW"] = str(job.get("slow") or "")
@@ -90,6 +110,8 @@ def main():
         rec = {"i": idx, "pos": pos}
         try:
             sc = CATALOGUE[item["name"]](item["seed"], item.get("params") or {})
+            if job.get("interleave_construct"):
+                _construct_bystander()
             st0 = hash(random.getstate())
             np0 = hashlib.sha1(np.random.get_state()[1].tobytes()).hexdigest() if np is not None else None
             np0pos = np.random.get_state()[2] if np is not None else None
